@@ -4,9 +4,12 @@ import json, os, glob, subprocess
 HERE = os.path.dirname(os.path.dirname(os.path.abspath(__file__)))
 props = [json.loads(l)["id"] for l in open(os.path.join(HERE, "properties.jsonl"))]
 frags = {}
+# only properties the coordinator has enabled (one id per line) are registered
+enabled = [l.strip() for l in open(os.path.join(HERE, "manifest.d", "enabled.txt")) if l.strip() and not l.startswith("#")]
 for f in sorted(glob.glob(os.path.join(HERE, "manifest.d", "C*.json"))):
     d = json.load(open(f))
-    frags[d["property_id"]] = d
+    if d["property_id"] in enabled:
+        frags[d["property_id"]] = d
 na_file = os.path.join(HERE, "manifest.d", "not_applicable.json")
 na_reasons = json.load(open(na_file)) if os.path.exists(na_file) else {}
 hooks_file = os.path.join(HERE, "manifest.d", "hooks.json")
